@@ -353,6 +353,9 @@ def inFunc {V} (S : Sem V) (st : St V) (f t n : Tok) : Outcome (St V) :=
   | .ok (opfd, opft) =>
   let st := { st with opfd := opfd, opft := opft }
   if t.ty == .argument then
+    -- column / row separators of an open array constant are not function arguments
+    -- (repository fix 6963681; before it they flushed the operator stack like any argument)
+    if st.inArray then .ok st else
     match flushToSep S true f st.opft st.opfd st.args with
     | .err => .err
     | .panic => .panic
